@@ -107,6 +107,36 @@ CHECKS = {
              "axum AxumJson driven in-process on generated requests, each compared with the framework's own extractor on an identical request followed by the model.",
         ref="5 C20", technique="Coq case-analysis theorems over an extractor model; in-process differential check against the frameworks' own extractors",
         note="Trusted: as C14; partial: async polling, body streaming, content-type negotiation happen inside actix/axum and are inputs (oracle), not modelled. No axioms."),
+    "C04": dict(
+        text="Proof: for every target type satisfying c04_wf (distinct effective keys per struct/variant, no variant field keyed like the tag), every payload with unique keys per object, "
+             "every location at which the value sits in the payload, every script and state, EVERY call the interpreter can make is true of the payload (call_ok): locations resolve, "
+             "IncorrectValueKind carries the value found there whose kind is not accepted, BadSequenceLen the sequence found there of another length, MissingField is absent there, UnknownKey is "
+             "present there and not accepted, UnknownValue is the string found there and not accepted; by induction on types over a Calls invariant, using the C08 state invariant for missing "
+             "fields. The hand-over-location-is-an-ancestor clause is decided by the trace monitor (call_true / locs_under) + correspondence.",
+        ref="5 C04", technique="Coq: Calls invariant on call trees + resolution lemmas, induction on types; in-Coq monitor evaluating the same predicate on implementation traces",
+        note="Trusted: as C01. Hypotheses stated in the theorem: c04_wf t, nodup_keys payload. Partial: ancestor clause of hand-over locations has no theorem. No axioms."),
+    "C07": dict(
+        text="Proof: (c07_pairing) for every field list in any declaration order and attribute mix, the match arms generated from the vectors of NamedFieldsInfo are, position by position, the "
+             "non-skipped fields in declaration order, each with its identifier, effective key, type, error type, conversion, default, map and missing-field function (stable sort + positional "
+             "zip proved); (c07_variant_scope) a variant's fields are renamed by the variant's own rename_all only; (c07_effective_key) rename, else rename_all, else identifier. camelCase / "
+             "lowercase (convert_case, to_lowercase) are modelled for ASCII identifiers and tied by correspondence on generated derive inputs with payloads over all plausible keys.",
+        ref="5 C07", technique="Coq theorems about the derive front-end model (list/zip/filter lemmas); in-Coq differential check on generated derive inputs compiled by the real macro",
+        note="Trusted: as C01 + Derive.v; convert_case and str::to_lowercase are modelled (ASCII) and tied by correspondence only. No axioms."),
+    "C08": dict(
+        text="Proof: (c08_missing_state_iff) after the entry loop, under any script, field i is Missing iff it has no default and no payload member selected its arm (present-but-invalid and "
+             "null never leave it Missing); (c08_selected_by_own_key) with distinct keys that means its key is absent; (c08_missing_reports) under a keep-going error type the missing loop "
+             "reports exactly those fields, once each, in field order, as MissingField(effective key) at the container's location or through the user's function called with exactly (key, "
+             "location). Defaults/skip values are decided by correspondence + Spec.v monitor on all delete/null/corrupt subsets.",
+        ref="5 C08", technique="Coq: Leaves invariant over the entry loop + explicit run of the missing loop; in-Coq differential check + Spec.v monitor",
+        note="Trusted: as C01. Partial: default/skip values flow has no dedicated theorem (correspondence + spec monitor). No axioms."),
+    "C16": dict(
+        text="Proof: (c16_never_accepted) every derive input that the property lists as rejectable (DeriveSpec.rejectable: empty/unknown/malformed attribute, invalid rename_all, a single-valued "
+             "attribute twice within one attribute or across several, from with try_from, tag on a struct, try_from with rename_all/tag/deny_unknown_fields - at container, variant and field level - "
+             "and the unsupported shapes) is never accepted by the front-end model; container causes yield Reject itself. The model has no panic outcome. Correspondence: generated crate of poisoned "
+             "and control items compiled by the real macro with cargo check --message-format=json, accept/reject/panic attributed per item.",
+        ref="5 C16", technique="Coq: merge invariants over attribute lists (counting invariant, brute-force merge inversion); differential check against rustc diagnostics",
+        note="Trusted: as C07 + cargo/rustc diagnostics attribution by line. Field/variant causes are required only when no container-level from/try_from replaces the body (the macro does not look at "
+             "the body then - documented in DESIGN.md). Wording/spans of diagnostics not compared. No axioms."),
 }
 
 NOT_YET = {}
